@@ -609,3 +609,233 @@ Proof.
     + apply (pair_in_elems a m p); auto.
     + apply (pair_in_elems b m0 q); auto.
 Qed.
+
+Theorem compare_iff_rank : forall M a b, inW M a = true -> inW M b = true -> same_type a b ->
+  (compare0 M a b = R true <-> rank0 M a b = R Eq) /\
+  (compare0 M a b = R true \/ compare0 M a b = R false).
+Proof.
+  intros M a b Ha Hb S.
+  rewrite (rank0_prank M a b) by (apply inW_inU; auto).
+  apply inW_spec in Ha, Hb. destruct Ha as [Wa Na], Hb as [Wb Nb].
+  rewrite compare0_pure by auto.
+  pose proof (pcomp_iff_prank a b Wa Wb S) as G.
+  split.
+  - split; intros H.
+    + apply Rb_inj in H. f_equal. apply G; auto.
+    + apply R_inj in H. f_equal. apply G; auto.
+  - destruct (pcomp a b); auto.
+Qed.
+
+(* the boundary: without the width hypothesis the statement fails (int8(1) vs int64(1)) *)
+Theorem compare_iff_rank_refuted :
+  exists M a b, inW M a = true /\ inW M b = true /\
+    rank0 M a b = R Eq /\ compare0 M a b = R false.
+Proof. exists 16, (VInt 8 1), (VInt 64 1). repeat split; vm_compute; reflexivity. Qed.
+
+(* ---------- same_type is reflexive on wf and symmetric ---------- *)
+Lemma wcompat_refl : forall a, wcompat a a = true.
+Proof. destruct a; simpl; auto; apply Z.eqb_refl. Qed.
+Lemma wcompat_sym : forall a b, wcompat a b = wcompat b a.
+Proof. destruct a, b; simpl; auto; apply Z.eqb_sym. Qed.
+
+Lemma single_ind_wf : forall (P : val -> Prop),
+  (forall a, wf a = true -> (forall x, In x (elems a) -> P x) -> P a) ->
+  forall a, wf a = true -> P a.
+Proof.
+  intros P H a Wa. apply wf_spec in Wa. destruct Wa as [Wa Xa]. revert Xa.
+  apply (single_ind (fun a => wfx a = true -> P a)); auto.
+  clear a Wa. intros a Wa IH Xa.
+  apply H; try (unfold wf; rewrite ?Wa, ?Xa; reflexivity).
+  intros x Hx. apply IH; auto. apply (elems_wfx a); auto.
+Qed.
+
+Lemma Forall2_refl_in {A} (R : A -> A -> Prop) : forall l, (forall x, In x l -> R x x) -> Forall2 R l l.
+Proof. induction l; intros H; constructor; [apply H; simpl; auto|apply IHl; intros; apply H; simpl; auto]. Qed.
+
+Theorem same_type_refl : forall a, wf a = true -> same_type a a.
+Proof.
+  apply (single_ind_wf (fun a => same_type a a)).
+  intros a Wa IH. constructor.
+  - intros. apply wcompat_refl.
+  - intros k1 v1 k2 v2 V1 V2. rewrite V1 in V2. inversion V2; subst.
+    destruct (view_elems_assoc _ _ _ V1). split; apply IH; auto.
+  - intros xs ys V1 V2 _. rewrite V1 in V2. inversion V2; subst.
+    apply Forall2_refl_in. intros x Hx. apply IH. eapply view_elems_arr; eauto.
+  - intros m1 m2 V1 V2 p q Hp Hq E. rewrite V1 in V2. inversion V2; subst.
+    destruct (wf_map a m2 Wa V1) as [_ [_ D]].
+    assert (p = q) as -> by (apply D; auto).
+    split; [apply wcompat_refl|]. apply IH. apply (pair_in_elems a m2 q); auto.
+Qed.
+
+Lemma pair_ind0 : forall (P : val -> val -> Prop),
+  (forall a b, (forall x y, In x (elems a) -> In y (elems b) -> P x y) -> P a b) ->
+  forall a b, P a b.
+Proof.
+  intros P H.
+  assert (forall n a b, wsz a + wsz b <= n -> P a b) as G.
+  { induction n as [|n IH]; intros a b Hn.
+    - pose proof (wsz_pos a). lia.
+    - apply H; auto. intros x y Hx Hy.
+      pose proof (elems_size _ _ Hx). pose proof (elems_size _ _ Hy).
+      apply IH; lia. }
+  intros a b. apply (G _ a b (le_n _)).
+Qed.
+
+Lemma Forall2_flip_in {A} (R S : A -> A -> Prop) : forall l1 l2,
+  Forall2 R l1 l2 -> (forall x y, In x l1 -> In y l2 -> R x y -> S y x) -> Forall2 S l2 l1.
+Proof.
+  induction 1; intros H'; constructor.
+  - apply H'; simpl; auto.
+  - apply IHForall2. intros; apply H'; simpl; auto.
+Qed.
+
+Theorem same_type_sym : forall a b, same_type a b -> same_type b a.
+Proof.
+  apply (pair_ind0 (fun a b => same_type a b -> same_type b a)).
+  intros a b IH S. inversion S as [a' b' SL SA SR SM]; subst a' b'. constructor.
+  - intros Lb La E. rewrite wcompat_sym. apply SL; auto. apply lrank_eq_sym; auto.
+  - intros k1 v1 k2 v2 V1 V2. destruct (SA _ _ _ _ V2 V1) as [S1 S2].
+    destruct (view_elems_assoc _ _ _ V1), (view_elems_assoc _ _ _ V2). split; apply IH; auto.
+  - intros xs ys V1 V2 L. specialize (SR _ _ V2 V1 (eq_sym L)).
+    eapply Forall2_flip_in; [exact SR|]. intros x y Hx Hy Sxy.
+    apply IH; auto; eapply view_elems_arr; eauto.
+  - intros m1 m2 V1 V2 p q Hp Hq E.
+    destruct (SM _ _ V2 V1 q p Hq Hp (lrank_eq_sym _ _ E)) as [W S2].
+    rewrite wcompat_sym. split; auto. apply IH; auto.
+    + apply (pair_in_elems a m2 q); auto.
+    + apply (pair_in_elems b m1 p); auto.
+Qed.
+
+(* ---------- h. compare is an equivalence ---------- *)
+Theorem compare_refl : forall M a, inW M a = true -> compare0 M a a = R true.
+Proof.
+  intros M a Ha. pose proof (inW_spec _ _ Ha) as [Wa _].
+  apply (compare_iff_rank M a a Ha Ha (same_type_refl a Wa)).
+  apply rank_refl. apply inW_inU; auto.
+Qed.
+
+Lemma bool_iff_eq : forall x y : bool, (x = true <-> y = true) -> x = y.
+Proof. intros [] [] H; auto; [symmetry|]; apply H; auto. Qed.
+
+Theorem compare_sym : forall M a b, inW M a = true -> inW M b = true -> same_type a b ->
+  compare0 M b a = compare0 M a b.
+Proof.
+  intros M a b Ha Hb S.
+  pose proof (inW_spec _ _ Ha) as [Wa Na]. pose proof (inW_spec _ _ Hb) as [Wb Nb].
+  rewrite !compare0_pure by auto. f_equal. apply bool_iff_eq.
+  rewrite (pcomp_iff_prank b a Wb Wa (same_type_sym _ _ S)), (pcomp_iff_prank a b Wa Wb S).
+  apply wf_spec in Wa, Wb. rewrite (prank_anti a b) by tauto.
+  destruct (prank a b); simpl; split; auto; discriminate.
+Qed.
+
+Theorem compare_trans : forall M a b c, inW M a = true -> inW M b = true -> inW M c = true ->
+  same_type a b -> same_type b c -> same_type a c ->
+  compare0 M a b = R true -> compare0 M b c = R true -> compare0 M a c = R true.
+Proof.
+  intros M a b c Ha Hb Hc Sab Sbc Sac H1 H2.
+  apply (compare_iff_rank M a b Ha Hb Sab) in H1.
+  apply (compare_iff_rank M b c Hb Hc Sbc) in H2.
+  apply (compare_iff_rank M a c Ha Hc Sac).
+  destruct (rank_ctr M a b c) as (x & y & z & E1 & E2 & E3 & T); try (apply inW_inU; auto).
+  rewrite E1 in H1. rewrite E2 in H2. apply R_inj in H1, H2. subst. simpl in T. subst. auto.
+Qed.
+
+(* ---------- i. sensitivity to single-part changes in sequences ---------- *)
+Lemma all2_app_mid : forall (r : val -> val -> bool) l1 x y l2,
+  (forall z, In z (l1 ++ l2) -> r z z = true) ->
+  all2 r (l1 ++ x :: l2) (l1 ++ y :: l2) = r x y.
+Proof.
+  induction l1 as [|z l1 IH]; intros x y l2 H; simpl.
+  - assert (all2 r l2 l2 = true) as ->; [|apply andb_true_r].
+    induction l2 as [|w l2 IH2]; simpl; auto.
+    rewrite H by (simpl; auto). rewrite IH2; auto. intros; apply H; simpl; auto.
+  - rewrite H by (simpl; auto). simpl. apply IH. intros; apply H; simpl; auto.
+Qed.
+
+Lemma inW_seq : forall M k l x, inW M (VSeq k l) = true -> In x l -> inW M x = true.
+Proof.
+  intros M k l x H Hx. apply inW_spec in H. destruct H as [W N]. unfold inW.
+  rewrite (elems_wf (VSeq k l) x W Hx). simpl. apply Nat.leb_le.
+  pose proof (elems_nest (VSeq k l) x Hx). simpl vstep in *. lia.
+Qed.
+
+Lemma pcomp_refl : forall a, wf a = true -> pcomp a a = true.
+Proof.
+  intros a Wa. apply pcomp_iff_prank; auto using same_type_refl.
+  apply prank_refl. apply wf_spec in Wa. tauto.
+Qed.
+
+Theorem compare_seq_one_change : forall M k l1 x y l2,
+  inW M (VSeq k (l1 ++ x :: l2)) = true -> inW M (VSeq k (l1 ++ y :: l2)) = true ->
+  compare0 M (VSeq k (l1 ++ x :: l2)) (VSeq k (l1 ++ y :: l2)) = compare0 M x y.
+Proof.
+  intros M k l1 x y l2 H1 H2.
+  pose proof (inW_seq _ _ _ x H1 ltac:(apply in_or_app; simpl; auto)) as Hx.
+  pose proof (inW_seq _ _ _ y H2 ltac:(apply in_or_app; simpl; auto)) as Hy.
+  assert (Hz : forall z, In z (l1 ++ l2) -> pcomp z z = true).
+  { intros z Hz. apply pcomp_refl.
+    assert (In z (l1 ++ x :: l2)) as I by (apply in_app_or in Hz; apply in_or_app; simpl; tauto).
+    pose proof (inW_seq _ _ _ z H1 I) as Wz. apply inW_spec in Wz. tauto. }
+  apply inW_spec in H1, H2, Hx, Hy.
+  rewrite !compare0_pure by tauto. f_equal.
+  rewrite pcomp_eq. unfold pcspec.
+  replace (tyrank (VSeq k (l1 ++ x :: l2)) =? tyrank (VSeq k (l1 ++ y :: l2)))%Z with true
+    by (symmetry; apply Z.eqb_eq; destruct k; reflexivity).
+  simpl negb. cbv iota. simpl view_of. cbv iota.
+  rewrite !app_length. simpl length. rewrite Nat.eqb_refl. simpl.
+  apply all2_app_mid; auto.
+Qed.
+
+Corollary compare_seq_one_change_unequal : forall M k l1 x y l2,
+  inW M (VSeq k (l1 ++ x :: l2)) = true -> inW M (VSeq k (l1 ++ y :: l2)) = true ->
+  compare0 M x y = R false ->
+  compare0 M (VSeq k (l1 ++ x :: l2)) (VSeq k (l1 ++ y :: l2)) = R false.
+Proof. intros. rewrite compare_seq_one_change; auto. Qed.
+
+(* adding or removing an element: sequences of different lengths are unequal (any values
+   within the depth limit) *)
+Theorem compare_seq_length : forall M k l1 l2, length l1 <> length l2 ->
+  nest (VSeq k l1) <= M -> nest (VSeq k l2) <= M ->
+  compare0 M (VSeq k l1) (VSeq k l2) = R false.
+Proof.
+  intros M k l1 l2 HL N1 N2. rewrite compare0_pure by auto. f_equal.
+  rewrite pcomp_eq. unfold pcspec.
+  replace (tyrank (VSeq k l1) =? tyrank (VSeq k l2))%Z with true
+    by (symmetry; apply Z.eqb_eq; destruct k; reflexivity).
+  simpl negb. cbv iota. simpl view_of. cbv iota.
+  apply Nat.eqb_neq in HL. rewrite HL. reflexivity.
+Qed.
+
+(* different collection kinds / different coarse types are never equal *)
+Theorem compare_type_mismatch : forall M a b, tyrank a <> tyrank b -> compare0 M a b = R false.
+Proof.
+  intros M a b H. unfold compare0, fuel_for. rewrite compare_unfold. unfold cspec.
+  apply Z.eqb_neq in H. rewrite H. reflexivity.
+Qed.
+
+(* ---------- k. calls are independent; a panic leaves no trace ---------- *)
+Inductive call := CallRank (a b : val) | CallCompare (a b : val).
+Definition call_result (M : nat) (c : call) : res comparison + res bool :=
+  match c with
+  | CallRank a b => inl (rank0 M a b)
+  | CallCompare a b => inr (compare0 M a b)
+  end.
+Definition run_calls (M : nat) (cs : list call) : list (res comparison + res bool) :=
+  map (call_result M) cs.
+
+Theorem after_panic_ok : forall M before c after,
+  nth (length before) (run_calls M (before ++ c :: after)) (inl OutOfFuel) = call_result M c.
+Proof.
+  intros. unfold run_calls. rewrite map_app. rewrite app_nth2; rewrite map_length; auto.
+  rewrite Nat.sub_diag. reflexivity.
+Qed.
+
+(* in particular: after the depth panic of j, an acyclic value still compares correctly *)
+Corollary after_depth_panic : forall M a, inW M a = true ->
+  run_calls M [CallCompare (nestk (S M)) (nestk (S M)); CallRank (nestk (S M)) (nestk (S M));
+               CallCompare a a; CallRank a a] =
+  [inr DepthPanic; inl DepthPanic; inr (R true); inl (R Eq)].
+Proof.
+  intros M a Ha. unfold run_calls. simpl.
+  destruct (depth_panics M) as [-> ->]. rewrite compare_refl, rank_refl; auto using inW_inU.
+Qed.
